@@ -157,7 +157,7 @@ func DecodeIdx(idx []int) (ent []byte, cs []uint8) {
 	}
 	csn := len(idx) / 3
 	entBits := len(bits) - csn
-	ent = make([]byte, entBits/8)
+	ent = make([]byte, (entBits+7)/8)
 	for i := 0; i < entBits; i++ {
 		ent[i/8] |= bits[i] << uint(7-i%8)
 	}
